@@ -5,6 +5,7 @@ from ..astutil import dotted, calls, call_name, body_walk, walk_local, kw
 from ..callgraph import resolve_call, bind_args, Callee
 from ..cfg import CFG, ALL_EXC, EXCEPTION_DOWN, describe, down
 from ..flow import OptionalFlow
+from ..fdeval import FD, Obj, Raised, Inconclusive
 from ..loader import AnalysisError, norm, ancestors
 from ..symbols import Symbols, ClassInfo
 
@@ -55,113 +56,122 @@ def r1_handler_coverage(ctx, sym, mod, fn, g):
     return sites[0]
 
 
-def r3_iff(ctx, sym, mod, fn, g, site):
-    ctx.rule('R3', "syntax_error / indentation_error are constructed only inside the matching handlers, once on every "
-                   "path through the handler; the else-arm (parser accepted) constructs no feedback; success is False "
-                   "in each handler and True only in the else-arm; the feedback receives the caught exception's own "
-                   "lineno/offset")
-    tries = [t for t in ast.walk(fn) if isinstance(t, ast.Try) and any(
-        call_name(c) == 'ast.parse' for c in calls(ast.Module(body=t.body, type_ignores=[])))]
-    ctx.require(len(tries) <= 1, "verify() has several try statements around ast.parse")
-    if not tries:
-        return   # R1 reports the unguarded parse
-    t = tries[0]
-    feedback_ctor = {'syntax_error', 'indentation_error'}
-    for c in calls(fn):
-        if call_name(c) in feedback_ctor:
-            h = [a for a in ancestors(c) if isinstance(a, ast.ExceptHandler)]
-            ok = bool(h) and h[0] in t.handlers
-            ctx.check(ok, 'R3', 'verify:%s-outside-handler' % call_name(c), mod, c,
-                      "%s is constructed outside the handlers of the parse" % call_name(c),
-                      "a program CPython accepts gets a syntax-category feedback")
+def verify_outcomes(ctx, sym, mod, fn):
+    """verify() executed abstractly for every parser outcome x {code given, code defaulted from the submission} x
+    {ordinary text, whitespace-only text}. Yields (scenario dict, observations dict)."""
+    from .. import symexec
     import builtins
-    seen = frozenset()
-    for h in t.handlers:
-        atoms = g._handler_atoms(h.type) - seen
-        seen |= atoms
-        if not (atoms & down(SyntaxError)):
+    tool = sym.const(mod, ast.parse('TOOL_NAME', mode='eval').body)
+    for outcome in ('accepted', 'SyntaxError', 'IndentationError', 'TabError'):
+        for given in (True, False):
+            for text, muted, enhance in (('x = 1\n', False, True), ('x = 1\n', True, True), ('x = 1\n', False, False),
+                                         ('x = 1\n', True, False), ('  \n\t\n', False, True), ('', False, True)):
+                rec = symexec.Recorder()
+                tree = symexec.marker('tree-of-the-code')
+                empty_tree = symexec.marker('tree-of-empty-text')
+                exc = Obj('exception', exc_kind=outcome, lineno=symexec.marker('e.lineno'),
+                          offset=symexec.marker('e.offset'), filename=symexec.marker('e.filename'),
+                          msg='invalid syntax', end_lineno=None, end_offset=None, text=None)
+
+                def parse(src, filename='<unknown>', *a, **k):
+                    rec.events.append(('ast.parse', (src, filename), k))
+                    if src == '':
+                        if text == '' and not [e for e in rec.named('ast.parse') if e[1][0] == ''][1:]:
+                            # the submission itself is the empty text: CPython accepts it
+                            if outcome == 'accepted':
+                                return tree
+                        else:
+                            return empty_tree
+                    if outcome == 'accepted':
+                        return tree
+                    raise Raised(outcome, payload=exc)
+                store = {'success': None, 'ast': None}
+                submission = Obj('submission', main_code=text, main_file='student_main.py', load_error=None)
+                report = Obj('report', submission=submission)
+                report.attrs['method:__getitem__'] = lambda k: store if k == tool else None
+
+                def b_isinstance(o, t):
+                    ts = t if isinstance(t, tuple) else (t,)
+                    if isinstance(o, Obj) and 'exc_kind' in o.attrs:
+                        k = getattr(builtins, o.attrs['exc_kind'])
+                        return any(isinstance(x, type) and issubclass(k, x) for x in ts)
+                    return isinstance(o, tuple(x for x in ts if isinstance(x, type)))
+                calls_ = {'ast.parse': parse, 'sys.exc_info': lambda: symexec.marker('exc_info'),
+                          'isinstance': b_isinstance}
+                for name in ('syntax_error', 'indentation_error', 'blank_source', 'source_file_not_found'):
+                    calls_[name] = rec.stub(name, ret=Obj(name))
+                extra = {k: getattr(builtins, k) for k in ('SyntaxError', 'IndentationError', 'TabError', 'Exception',
+                                                           'ValueError', 'BaseException')}
+                for name in ('syntax_error', 'indentation_error'):
+                    extra[name] = calls_[name]
+                fd = symexec.new_fd(sym, mod, calls=calls_, extra=extra)
+                kwargs = {'report': report, 'muted': muted, 'enhance': enhance}
+                if given:
+                    kwargs['code'] = text
+                    kwargs['filename'] = 'given.py'
+                value, raised = symexec.run(fd, fn, [], kwargs, what='verify')
+                yield (dict(outcome=outcome, given=given, text=text, muted=muted, enhance=enhance),
+                       dict(value=value, raised=raised, rec=rec, store=store, tree=tree, exc=exc,
+                            filename='given.py' if given else 'student_main.py'))
+
+
+def r3_iff(ctx, sym, mod, fn, g, site):
+    ctx.rule('R3', "verify() executed abstractly for every parser outcome (accepted, SyntaxError, IndentationError, "
+                   "TabError) x code given/defaulted x ordinary/blank text: exactly one syntax_error (or "
+                   "indentation_error for IndentationError and its subclasses) is constructed iff the parser rejected "
+                   "the text, it receives the caught exception's own lineno/offset, the parsed text and the report; "
+                   "success/return value are False iff rejected; nothing is constructed for accepted text")
+    ctx.rule('R4', "the stored tree is the value of ast.parse applied to the unmodified text (the given code, or the "
+                   "submission's main code) under the matching filename")
+    ctx.rule('R5', "blank_source is constructed exactly for whitespace-only text")
+    n = 0
+    for sc, ob in verify_outcomes(ctx, sym, mod, fn):
+        n += 1
+        tag = '[%s,%s,%r%s%s]' % (sc['outcome'], 'given' if sc['given'] else 'defaulted', sc['text'][:6],
+                                  ',muted' if sc['muted'] else '', ',enhance=False' if not sc['enhance'] else '')
+        rec, store = ob['rec'], ob['store']
+        if ob['raised'] is not None:
+            ctx.fail('R3', 'verify:raises' + tag, mod, fn, "verify() lets %s escape" % ob['raised'].kind,
+                     "verify() on text for which ast.parse raises %s" % sc['outcome'])
             continue
-        name = norm(h.type)
-        want = 'indentation_error' if atoms <= down(IndentationError) else 'syntax_error'
-        hn = g.stmt_nodes[id(h)][0]
-        ctors = [x for x in g.nodes_calling(lambda c: call_name(c) in feedback_ctor)
-                 if any(a is h for a in ancestors(x.ast))]
-        ok = len(ctors) >= 1 and g.must_pass(hn, g.exit, ctors) and \
-            not any(b.id in g.successors_avoiding(a, []) for a in ctors for b in ctors)
-        ctx.check(ok, 'R3', 'verify:except %s:constructs-once' % name, mod, h,
-                  "the handler does not construct its feedback exactly once on every path",
-                  "a program CPython rejects gets no (or two) syntax feedback")
-        for x in ctors:
-            c = [c for c in g.own_calls(x) if call_name(c) in feedback_ctor][0]
-            ctx.check(call_name(c) == want, 'R3', 'verify:except %s:class' % name, mod, c,
-                      "handler for %s constructs %s, expected %s" % (name, call_name(c), want),
-                      "the wrong kind of syntax feedback")
-            e = h.name
-            ok = e is not None and len(c.args) >= 5 and norm(c.args[0]) == e + '.lineno' and \
-                norm(c.args[3]) == e + '.offset' and norm(c.args[4]) == e and norm(c.args[2]) == 'code'
-            ctx.check(ok, 'R3', 'verify:except %s:args' % name, mod, c,
-                      "the feedback is not given the caught exception's own lineno/offset and the parsed text",
-                      "the reported line is not the one CPython reports")
-            ctx.check(norm(kw(c, 'report')) == 'report', 'R3', 'verify:except %s:report' % name, mod, c,
-                      "feedback not attached to the given report", "feedback lands in another report")
-        sets = [n for n in ast.walk(h) if isinstance(n, ast.Assign) and norm(n.targets[0]).endswith("['success']")]
-        ctx.check(len(sets) >= 1 and all(isinstance(s.value, ast.Constant) and s.value.value is False for s in sets),
-                  'R3', 'verify:except %s:success-false' % name, mod, h, "success is not set False in the handler",
-                  "a rejected program is reported as parsed")
-    # else arm
-    else_calls = [c for st in t.orelse for c in calls(st)]
-    ctx.check(not any(call_name(c) in feedback_ctor | {'blank_source'} for c in else_calls), 'R3',
-              'verify:else:no-feedback', mod, t, "the else-arm constructs a feedback",
-              "an accepted program gets syntax feedback")
-    trues = [n for n in ast.walk(fn) if isinstance(n, ast.Assign) and norm(n.targets[0]).endswith("['success']")
-             and isinstance(n.value, ast.Constant) and n.value.value is True]
-    ctx.check(len(trues) >= 1 and all(any(n in ast.walk(st) for st in t.orelse) for n in trues), 'R3',
-              'verify:success-true-only-in-else', mod, t, "success is set True outside the else-arm of the parse",
-              "a rejected program is reported as parsed")
-
-
-def r4_stored_tree(ctx, sym, mod, fn, g, site):
-    ctx.rule('R4', "the stored tree is the value of ast.parse applied to the unmodified `code` (code is only "
-                   "defaulted from report.submission.main_code, never transformed)")
-    c = [c for c in g.own_calls(site) if call_name(c) == 'ast.parse'][0]
-    ctx.check(isinstance(c.args[0], ast.Name) and c.args[0].id == 'code', 'R4', 'verify:parses-code', mod, c,
-              "ast.parse is applied to %s, not to the submitted text" % norm(c.args[0]),
-              "text with leading/trailing whitespace or other differences parses differently from CPython")
-    assigns = [n for n in body_walk(fn) if isinstance(n, ast.Assign) and any(norm(t) == 'code' for t in n.targets)]
-    ok = all(norm(n.value) == 'report.submission.main_code' for n in assigns)
-    ctx.check(ok, 'R4', 'verify:code-unmodified', mod, assigns[0] if assigns else fn,
-              "`code` is transformed before parsing (%s)" % [norm(n.value) for n in assigns],
-              "the stored tree is not CPython's tree of the submission")
-    # the stored ast is the parse result
-    tgt = None
-    st = site.ast
-    if isinstance(st, ast.Assign):
-        tgt = norm(st.targets[0])
-    stores = [n for n in body_walk(fn) if isinstance(n, ast.Assign) and norm(n.targets[0]).endswith("['ast']")]
-    ok = False
-    for s in stores:
-        if any(a in getattr(s, '_parent', None).__dict__.get('body', []) for a in [s]):
-            pass
-    in_try_body = [s for s in stores if not any(isinstance(a, ast.ExceptHandler) for a in ancestors(s))]
-    ok = len(in_try_body) == 1 and (norm(in_try_body[0].value) == tgt or in_try_body[0] is st)
-    ctx.check(ok, 'R4', 'verify:stores-parse-result', mod, in_try_body[0] if in_try_body else fn,
-              "report['ast'] on the success path is not the value returned by ast.parse(code)",
-              "later tools analyse a different tree")
-
-
-def r4b_filename_with_code(ctx, sym, mod, fn, g, site):
-    code_defaults = g.nodes_where(lambda n: isinstance(n.ast, ast.Assign) and n.kind == 'stmt'
-                                  and norm(n.ast.targets[0]) == 'code' and 'main_code' in norm(n.ast.value))
-    file_defaults = g.nodes_where(lambda n: isinstance(n.ast, ast.Assign) and n.kind == 'stmt'
-                                  and norm(n.ast.targets[0]) == 'filename' and 'main_file' in norm(n.ast.value))
-    ok = bool(code_defaults) and bool(file_defaults) and all(
-        site.id not in g.successors_avoiding(c, file_defaults) for c in code_defaults)
-    ctx.check(ok, 'R6', 'verify:filename-defaulted-with-code', mod, code_defaults[0].ast if code_defaults else fn,
-              "when the code is defaulted from the submission there is a path to ast.parse on which the filename is "
-              "not the submission's main file (the parameter default 'answer.py' is kept), so line offsets - which are "
-              "keyed by the real filename - are not found",
-              "a main file called student.py, sections active, syntax error in section 2: the reported line is "
-              "section-relative")
+        n_syn, n_ind = len(rec.named('syntax_error')), len(rec.named('indentation_error'))
+        # the property accepts either kind of syntax-category feedback for a rejected text
+        want = 0 if sc['outcome'] == 'accepted' else 1
+        ctx.check(n_syn + n_ind == want, 'R3', 'verify:constructs-once' + tag, mod, fn,
+                  "parser outcome %s: %d syntax_error and %d indentation_error constructed, expected %d in all" % (
+                      sc['outcome'], n_syn, n_ind, want),
+                  "a program CPython %s gets %s syntax feedback" % (
+                      'accepts' if sc['outcome'] == 'accepted' else 'rejects',
+                      'a' if sc['outcome'] == 'accepted' else 'no (or two, or the wrong kind of)'))
+        rejected = sc['outcome'] != 'accepted'
+        blank = sc['text'].strip() == ''
+        ctx.check(store['success'] is (not rejected) and ob['value'] is (not rejected), 'R3', 'verify:success' + tag,
+                  mod, fn, "parser outcome %s: success=%r, returns %r" % (sc['outcome'], store['success'], ob['value']),
+                  "a rejected program is reported as parsed (or the reverse)")
+        for ev in rec.named('syntax_error') + rec.named('indentation_error'):
+            args, kw_ = ev[1], ev[2]
+            exc = ob['exc']
+            ok = len(args) >= 5 and args[0] is exc.attrs['lineno'] and args[3] is exc.attrs['offset'] and \
+                args[4] is exc and args[2] == sc['text'] and kw_.get('report') is not None and \
+                kw_['report']._name == 'report'
+            ctx.check(ok, 'R3', 'verify:args' + tag, mod, fn,
+                      "the feedback is not given the caught exception's own lineno/offset, the exception, the parsed "
+                      "text and the report", "the reported line is not the one CPython reports")
+        parses = [e for e in rec.named('ast.parse') if e[1][0] == sc['text']]
+        ctx.check(len(parses) >= 1 and parses[0][1][1] == ob['filename'], 'R4' if sc['given'] else 'R6',
+                  'verify:parses-code' + tag if sc['given'] else 'verify:filename-defaulted-with-code' + tag, mod, fn,
+                  "ast.parse is not applied to the unmodified text under the file name %r (calls: %r)" % (
+                      ob['filename'], [e[1] for e in rec.named('ast.parse')]),
+                  "text with leading/trailing whitespace parses differently from CPython; with the wrong file name the "
+                  "line offsets - keyed by the real file name - are not found")
+        if not rejected:
+            ctx.check(store['ast'] is ob['tree'], 'R4', 'verify:stores-parse-result' + tag, mod, fn,
+                      "report['ast'] on the success path is %r, not the value returned by ast.parse(code)" % (
+                          store['ast'],), "later tools analyse a different tree")
+        ctx.check(len(rec.named('blank_source')) == (1 if blank else 0), 'R5', 'verify:blank' + tag, mod, fn,
+                  "blank_source constructed %d time(s) for the text %r" % (len(rec.named('blank_source')), sc['text']),
+                  "an empty submission is not reported as blank (or a non-empty one is)")
+    ctx.floor('R3', 'verify scenarios', n, 20)
 
 
 def r7_line_indexing(ctx, sym):
@@ -192,19 +202,6 @@ def r7_line_indexing(ctx, sym):
     ctx.ok('R7', 'line-indexing-sweep', sample={'subscripts_by_line': n}, nontrivial=False)
 
 
-def r5_blank(ctx, sym, mod, fn, g):
-    ctx.rule('R5', "blank_source is constructed exactly under `code.strip() == ''`, outside any handler")
-    bs = [c for c in calls(fn) if call_name(c) == 'blank_source']
-    ok = len(bs) == 1
-    if ok:
-        guard = [a for a in ancestors(bs[0]) if isinstance(a, ast.If)]
-        ok = bool(guard) and norm(guard[0].test) in ("code.strip() == ''", "not code.strip()", "code.strip() == \"\"") \
-            and not any(isinstance(a, ast.ExceptHandler) for a in ancestors(bs[0]))
-    ctx.check(ok, 'R5', 'verify:blank', mod, bs[0] if bs else fn,
-              "blank_source is not reported exactly for whitespace-only text",
-              "an empty submission is not reported as blank (or a non-empty one is)")
-
-
 def r6_r2_line(ctx, sym):
     ctx.rule('R2', "Optional[int] flow: lineno/offset/end_lineno/end_offset of a caught SyntaxError may be None; "
                    "followed from verify() into syntax_error.__init__ and ExpandedTraceback.build_traceback (and "
@@ -226,29 +223,52 @@ def r6_r2_line(ctx, sym):
                  "raises TypeError instead of attaching a syntax error")
     if not flow.uses:
         ctx.ok('R2', 'syntax_error.__init__:optional-uses', sample='line/col_offset guarded before arithmetic')
-    # R6: lineno field and location
-    fields = [n for n in ast.walk(init) if isinstance(n, ast.Dict)]
-    lineno_expr = None
-    for d in fields:
-        for k, v in zip(d.keys, d.values):
-            if isinstance(k, ast.Constant) and k.value == 'lineno':
-                lineno_expr = v
-    defs = {norm(n.targets[0]): n.value for n in body_walk(init) if isinstance(n, ast.Assign)}
-    ok = lineno_expr is not None and isinstance(lineno_expr, ast.BinOp) and isinstance(lineno_expr.op, ast.Add) and \
-        {norm(lineno_expr.left), norm(lineno_expr.right)} == {'line', 'line_offset'} and \
-        norm(defs.get('line_offset')) == 'line_offsets.get(filename, 0)'
-    ctx.check(ok, 'R6', 'syntax_error:lineno=line+offset', fmod, lineno_expr if lineno_expr is not None else init,
-              "fields['lineno'] is not `line + line_offsets.get(filename, 0)`",
-              "a syntax error inside section 2 is reported with the section-relative line")
-    loc = [c for c in calls(init) if call_name(c) == 'Location']
-    ok = len(loc) == 1 and norm(kw(loc[0], 'line')) in ('line + line_offset', 'line_offset + line')
-    ctx.check(ok, 'R6', 'syntax_error:location', fmod, loc[0] if loc else init,
-              "the feedback location is not the whole-file line", "location points at the wrong line")
-    lo = defs.get('line_offsets')
-    ctx.check(any(isinstance(n, ast.Assign) and norm(n.targets[0]) == 'line_offsets'
-                  and norm(n.value) == 'report.submission.line_offsets' for n in ast.walk(init)),
-              'R6', 'syntax_error:offset-source', fmod, init, "line offsets are not read from the submission",
-              "section offsets ignored")
+    # R6: syntax_error.__init__ executed abstractly: the reported line is CPython's line plus the section offset
+    from .. import symexec
+    for line, col in ((3, 2), (1, 0), (None, None), (7, None)):
+        for filename, offsets, want_off in (('student.py', {'student.py': 10}, 10), ('other.py', {'student.py': 10}, 0),
+                                            ('student.py', {}, 0)):
+            rec = symexec.Recorder()
+            submission = Obj('submission', line_offsets=offsets, instructor_file='on_run.py')
+            symexec.method(submission, 'get_files_lines', lambda: {'student.py': ['a', 'b', 'c', 'd', 'e', 'f', 'g', 'h']})
+            symexec.method(submission, 'get_lines', lambda: ['a', 'b', 'c', 'd', 'e', 'f', 'g', 'h'])
+            report = Obj('report', submission=submission, format=Obj('format'))
+            tb = Obj('traceback')
+            symexec.method(tb, 'build_traceback', lambda: ['frame'])
+            symexec.method(tb, 'format_traceback', lambda *a: 'TB')
+            exc = Obj('exception', msg='invalid syntax', lineno=line, offset=col, exc_kind='SyntaxError')
+            me = symexec.self_obj(fmod, 'syntax_error', constant_fields={'suggestion': 'Check line {lineno}'})
+            sup = Obj('super')
+            symexec.method(sup, '__init__', rec.stub('super().__init__'))
+            fd = symexec.new_fd(sym, fmod, calls={
+                'get_exception_name': lambda e: 'SyntaxError', 'add_indefinite_article': lambda x: 'a ' + x,
+                'ExpandedTraceback': rec.stub('ExpandedTraceback', ret=tb), 'Location': rec.stub('Location', fn=lambda **k: Obj('location', **k)),
+                'wrap_fields': lambda fmt, fields: dict(fields), 'super': lambda *a: sup})
+            _, raised = symexec.run(fd, init, [line, filename, 'a\nb\nc\nd\ne\nf\ng\nh', col, exc, ('T', exc, None)],
+                                    {'report': report}, bound_self=me, what='syntax_error.__init__')
+            tag = '[line=%r,col=%r,%s,offsets=%r]' % (line, col, filename, offsets)
+            if raised is not None:
+                ctx.fail('R2', 'syntax_error.__init__:raises' + tag, fmod, getattr(raised, 'node', None) or init,
+                         "syntax_error.__init__ raises %s (%s)" % (raised.kind, raised.detail),
+                         "verify() on a text for which CPython reports lineno=%r offset=%r" % (line, col))
+                continue
+            sup_calls = rec.named('super().__init__')
+            fields = sup_calls[0][2].get('fields') if len(sup_calls) == 1 else None
+            loc = sup_calls[0][2].get('location') if len(sup_calls) == 1 else None
+            want_line = (1 if line is None else line) + want_off
+            ok = isinstance(fields, dict) and fields.get('lineno') == want_line and isinstance(loc, Obj) and \
+                loc.attrs.get('line') == want_line
+            ctx.check(ok, 'R6', 'syntax_error:lineno=line+offset' + tag, fmod, init,
+                      "CPython line %r in %s with section offsets %r is reported on line %r (location %r); expected %r" % (
+                          line, filename, offsets, fields.get('lineno') if isinstance(fields, dict) else fields,
+                          loc.attrs.get('line') if isinstance(loc, Obj) else loc, want_line),
+                      "a syntax error inside section 2 is reported with the section-relative line")
+            tbs = rec.named('ExpandedTraceback')
+            ctx.check(len(tbs) == 1 and any(a is offsets for a in tbs[0][1]) or
+                      (len(tbs) == 1 and any(v is offsets for v in tbs[0][2].values())), 'R6',
+                      'syntax_error:offset-source' + tag, fmod, init,
+                      "the submission's line offsets are not handed to the traceback", "section offsets ignored in the "
+                      "traceback text")
     # ExpandedTraceback
     umod = ctx.repo.module(UEXC)
     bt = umod.func('ExpandedTraceback.build_traceback')
@@ -295,10 +315,7 @@ def run(ctx):
     g = CFG(fn, raises=parse_raises)
     site = r1_handler_coverage(ctx, sym, mod, fn, g)
     r3_iff(ctx, sym, mod, fn, g, site)
-    r4_stored_tree(ctx, sym, mod, fn, g, site)
-    r5_blank(ctx, sym, mod, fn, g)
     r6_r2_line(ctx, sym)
-    r4b_filename_with_code(ctx, sym, mod, fn, g, site)
     r7_line_indexing(ctx, sym)
     ctx.assume("ast.parse(str) fails only with SyntaxError, ValueError, RecursionError or MemoryError (CPython docs "
                "and observed on 3.12); agreement of the reported line with CPython's for every corrupted text beyond "
